@@ -139,6 +139,28 @@ static OCase gen_case() {
       edge_hug(s, x0, y0, sc.w, sc.h);
       s.filter = pickw({5, 6, 1, 2, 1, 1, 1});
       s.repeat = (int)R(0, 3);
+      if (s.bits.w >= 64 && coin(60)) {
+        // the shape of the repeating scaled fast paths: 8888/565, positive integer or half-integer scale, NORMAL repeat,
+        // nearest/bilinear, SRC/OVER onto 8888/565 -- with the first or last sample exactly on the last column (the pixel
+        // "after" it is column 0, not the memory behind the row) and the storage ending flush against a fence
+        s.bits.fmt = fmt_index(pick<pixman_format_code_t>({PIXMAN_a8r8g8b8, PIXMAN_a8r8g8b8, PIXMAN_x8r8g8b8, PIXMAN_r5g6b5}));
+        s.bits.h = (int)R(1, 2);
+        s.bits.pad = 0;
+        s.bits.fence = coin(80) ? 1 : 2;
+        s.bits.neg = 0;
+        s.repeat = coin(75) ? 1 : (int)R(0, 3);
+        s.filter = pickw({3, 7});
+        int64_t a = pick<int64_t>({65536, 131072, 196608, 98304, 32768, 262144});
+        int kk = coin(50) ? 0 : sc.w - 1;  // which sample of the row is put on the edge
+        // nearest samples pixel floor(p - e), bilinear the pair around p - 1/2: put p - 1/2 (or p) on column w-1 / w-2 exactly
+        int64_t target = ((int64_t)s.bits.w - pick<int64_t>({1, 1, 2, 0})) * 65536 + (s.filter == 1 ? 32768 : pick<int64_t>({0, 32768, 1}));
+        int64_t pos = a * (2 * ((int64_t)x0 + kk) + 1) / 2;
+        s.m = {a, 0, target - pos, 0, coin(60) ? a : 65536, s.m[5], 0, 0, 65536};
+        if (k == 0) {  // (the source, not the mask)
+          sc.op = pick<int>({PIXMAN_OP_SRC, PIXMAN_OP_OVER, PIXMAN_OP_OVER, PIXMAN_OP_ADD});
+          sc.dst.bits.fmt = fmt_index(pick<pixman_format_code_t>({PIXMAN_a8r8g8b8, PIXMAN_x8r8g8b8, PIXMAN_r5g6b5}));
+        }
+      }
       break;
     case 2:
       s.has_transform = 1;
